@@ -442,7 +442,9 @@ DoTick(q0, ch, rec) ==
         IN
         IF total = 0 THEN qc
         ELSE IF total < MaxCap THEN
-            (IF qc.cur >= MaxCap THEN MaybeRebalance(qc, rec) ELSE qc)
+            \* Mode B (below capacity): no rebalance, but spare capacity goes to
+            \* blocks whose requests have no connection coming (_capacity_freed)
+            (IF qc.cur >= MaxCap THEN MaybeRebalance(qc, rec) ELSE CapacityFreed(qc))
         ELSE IF qc.starving THEN
             LET qd == ModeDQuotas(qc, qc.ord, rec) IN
             IF ~was /\ qd.waitlist # <<>> THEN StealLoop(qd, qd.ord, rec) ELSE qd
